@@ -20,6 +20,7 @@ import SamVerif.Drive.C20
 import SamVerif.Drive.C16
 import SamVerif.Drive.C02
 import SamVerif.Drive.C01
+import SamVerif.Drive.C09
 open SamVerif.Drive
 
 def dispatch (line : String) : String :=
@@ -42,6 +43,7 @@ def dispatch (line : String) : String :=
     else if k.startsWith "c16." then C16.handle k args impl
     else if k.startsWith "c02." then C02.handle k args impl
     else if k.startsWith "c01." then C01.handle k args impl
+    else if k.startsWith "c09." then C09.handle k args impl
     else "bad-op"
   | _ => "bad-op"
 
